@@ -366,6 +366,16 @@ func (d *magDriver) job(fn *ssa.Function, label string, args []magArg, record bo
 			if f.Kind == "narrow" && !strings.HasPrefix(ssau.PkgSuffix(f.Fn), "internal/curve25519") {
 				continue
 			}
+			if f.Kind == "narrow" {
+				// the parser extracts bit fields on purpose; which input bit lands where is decided by O-bit-origin
+				top := f.Fn
+				for top.Parent() != nil {
+					top = top.Parent()
+				}
+				if top.Name() == "Expand" {
+					continue
+				}
+			}
 			key := fmt.Sprintf("%s|%s|%s", f.Kind, ssau.QName(f.Fn), ssau.InstrPos(d.p, f.Instr))
 			d.findings[key] = fmt.Sprintf("%s in %s [%s, via %s]: %s", f.Kind, ssau.QName(f.Fn), label, strings.Join(f.Stack, ">"), f.Msg)
 			d.pos[key] = ssau.InstrPos(d.p, f.Instr)
